@@ -139,8 +139,20 @@ func runC08(e *Env) error {
 			for _, op := range []string{"in", "not in"} {
 				src := needle + " " + op + " " + lst
 				c := exprCase(src, map[string]any{"n": 12, "nul": nil, "t": true,
-					"long": func() []interface{} { o := make([]interface{}, 70); for i := range o { o[i] = i }; return o }(),
-					"longs": func() []interface{} { o := make([]interface{}, 70); for i := range o { o[i] = fmt.Sprint(i) }; return o }()})
+					"long": func() []interface{} {
+						o := make([]interface{}, 70)
+						for i := range o {
+							o[i] = i
+						}
+						return o
+					}(),
+					"longs": func() []interface{} {
+						o := make([]interface{}, 70)
+						for i := range o {
+							o[i] = fmt.Sprint(i)
+						}
+						return o
+					}()})
 				if _, _, _, err := compareCase(e, c, "render-model-c08", "correspondence on membership in long sequences"); err != nil {
 					return err
 				}
